@@ -352,12 +352,17 @@ class World(EventDispatcher):
             # is not repeated at every following call
             self._dead_entities.discard(entity)
 
-            for component_type, component in self._entities[entity].items():
+            # Detach everything before notifying anybody (as
+            # delete_entity does), so that callbacks never find a half
+            # dismantled entity (eg. one of them clears the world)
+            components = self._entities.pop(entity)
+            for component_type in components:
                 self._components[component_type].discard(entity)
 
                 if not self._components[component_type]:
                     del self._components[component_type]
 
+            for component in components.values():
                 # Event handling
                 if (hasattr(component, '__events__')
                         and ON_REMOVE_EVENT_NAME in component.__events__):
@@ -378,8 +383,6 @@ class World(EventDispatcher):
                 # Handlers that do not listen to on_remove leave too
                 if hasattr(component, '__events__'):
                     self.remove_handler(component)
-
-            del self._entities[entity]
 
     def remove_component(self, entity: Hashable, component_type: type[C]):
         """Remove a component from an entity, if the entity owns one.
